@@ -103,20 +103,24 @@ def values_of(kind, n, form):
         if form == "nparray":
             return vals, f"numpy.array({vals})"
         return vals, list(vals)
+    # NB: the first swept value of the scalar model arguments is 0 / 0.0 - a legal value that is falsy in Python
+    # (seeded variant C05_1: `value or default`); the configured values are all different from 0
     if kind in ("A1", "A2"):
         base = (10 if kind == "A1" else 12) + s
-        vals = [base + 10 * i for i in range(n)]
+        if form == "nprange":
+            vals = [10 * i for i in range(n)]
+            return vals, f"numpy.arange(0, {vals[-1] + 1}, 10)"
+        vals = [0] + [base + 10 * i for i in range(1, n)]
         if form == "nparray":
             return vals, f"numpy.array({vals})"
-        if form == "nprange":
-            return vals, f"numpy.arange({vals[0]}, {vals[-1] + 1}, 10)"
         return vals, list(vals)
     if kind == "B1":
-        vals = [11.5 + s + 10 * i for i in range(n)]
+        if form == "nprange":
+            vals = [10.0 * i for i in range(n)]
+            return vals, f"numpy.arange(0.0, {vals[-1] + 1.0}, 10.0)"
+        vals = [0.0] + [11.5 + s + 10 * i for i in range(1, n)]
         if form == "nparray":
             return vals, f"numpy.array({vals})"
-        if form == "nprange":
-            return vals, f"numpy.arange({vals[0]}, {vals[-1] + 1.0}, 10.0)"
         return vals, list(vals)
     if kind == "V1x2":
         vals = [[1 + s + 2 * i, 2 + 2 * i] for i in range(n)]
@@ -216,6 +220,16 @@ def enumerate_cases(tier, seed):
                         continue
                     for ex in EXEC:
                         add(kinds, [1, 1], ["lit", "lit"], en, "custom", ex, rows, cr)
+    # ---- size 3, colliding short names ('a' of p1 / p2, 'v' of p1 / p2) in EVERY declaration order, so that the two
+    #      colliding parameters are adjacent and separated by a third one (seeded variant C05_2)
+    for trio in (("A1", "B1", "A2"), ("V1x2", "T", "V2x3"), ("A1", "Q", "A2")):
+        for kinds in itertools.permutations(trio):
+            for en in ([True, True, True], [True, False, True]) if kinds[1] in ("B1", "T", "Q") else ([True, True, True],):
+                for mode in ("product", "sequential"):
+                    for ex in EXEC:
+                        add(kinds, (2, 1, 2), ["lit"] * 3, en, mode, ex)
+            for ex in EXEC:
+                add(kinds, [1, 1, 1], ["lit"] * 3, [True] * 3, "custom", ex, 2, "zero")
     if thorough:
         # ---- size 3: canonical and reversed order; several length vectors; all enabled patterns on one of them
         L3 = [(2, 3, 1), (1, 2, 3), (3, 1, 2), (2, 2, 2)]
